@@ -330,6 +330,7 @@ class World(object):
             w.obs.append(('cb', 'onPublish', c.idx,
                           (topic, bytes(payload) if isinstance(payload, (bytes, bytearray)) else payload,
                            qos, bool(dup), bool(retain), msgId)))
+            w._reenter('onPublish', c.addr, 1)
         onPublish._verif_rec = 'onPublish'
 
         def onMqttConnectionMade(c=c):
@@ -462,15 +463,8 @@ class World(object):
                 r.fires.append((w.step, 'ok', _valcanon(v), False))
                 w.obs.append(('fire', r.idx, 'ok', _valcanon(v), False))
                 # optional: the application calls the API again from inside this callback (once per world)
-                if r.kind in w.cfg.get('reenter', ()) and not w.reentered and r.call_step < w.step:
-                    w.reentered = True
-                    w.obs.append(('reenter', r.idx, r.kind))
-                    if r.kind == 'pub':
-                        w.ev_pub(r.addr, r.qos or 1)
-                    elif r.kind == 'sub':
-                        w.ev_sub(r.addr, 'str')
-                    elif r.kind == 'unsub':
-                        w.ev_unsub(r.addr, 'str')
+                if r.call_step < w.step:
+                    w._reenter('ok:' + r.kind, r.addr, r.qos)
 
             def err(f, r=r):
                 c = w.conns[r.conn]
@@ -483,12 +477,37 @@ class World(object):
                 r.exc_mro = tuple(k.__name__ for k in f.type.__mro__)
                 r.fires.append((w.step, 'err', f.type.__name__, isr))
                 w.obs.append(('fire', r.idx, 'err', f.type.__name__, isr))
+                if r.call_step < w.step:
+                    w._reenter('err:' + r.kind, r.addr, r.qos)
             ok._verif_rec = err._verif_rec = 'deferred-recorder'
             d.addCallbacks(ok, err)
         else:
             r.ret = 'value'
             self.obs.append(('ret', r.idx, 'value', _valcanon(d)))
         return r
+
+    def _reenter(self, trigger, addr, qos=None):
+        """Re-entrant use of the API: cfg['reenter'] lists 'trigger>action' (e.g. 'ok:pub>pub', 'err:pub>pub',
+        'ok:pub>disconnect', 'onPublish>disconnect'); a bare kind k means 'ok:k>k'.  The first matching trigger of a world
+        performs its action from inside the callback (once per world)."""
+        if self.reentered:
+            return
+        for spec in self.cfg.get('reenter', ()):
+            trig, act = spec.split('>') if '>' in spec else ('ok:' + spec, spec)
+            if trig != trigger:
+                continue
+            self.reentered = True
+            self.obs.append(('reenter', trigger, act))
+            c = self.conn(addr)
+            if act == 'pub':
+                self.ev_pub(addr, qos or 1)
+            elif act == 'sub':
+                self.ev_sub(addr, 'str')
+            elif act == 'unsub':
+                self.ev_unsub(addr, 'str')
+            elif act == 'disconnect':
+                self.ev_disconnect(addr)
+            return
 
     def phase(self, conn):
         """The reference protocol phase, derived from what the harness has seen (not from proto.state)."""
